@@ -83,7 +83,8 @@ IndirOrphans(ev) == {n \in Nodes(ev) \ Roots(ev) : ev.nodes[n].hasLocal /\ ev.no
 
 (* Catalogue!CategoryOfKind: the pair differs by exactly one catalogue entry (ev.mutKind, "" otherwise) whose category class is        *)
 (* specified: some node carries that class in its local category.                                                                   *)
-CatalogueMismatch(ev) == HasSpecifiedCategory(ev.mutKind) /\ ~\E n \in Nodes(ev) : CategoryOfKind(ev.mutKind) \in LCat(ev, n)
+(* (when every category is allowed the filters -- and with them the categorization -- do not run at all)                            *)
+CatalogueMismatch(ev) == ~(ev.allowHarmless /\ ev.allowHarmful) /\ HasSpecifiedCategory(ev.mutKind) /\ ~\E n \in Nodes(ev) : CategoryOfKind(ev.mutKind) \in LCat(ev, n)
 
 Verdict(ev) ==
   IF ev.ret # "ok" THEN "bad:crash"
